@@ -7,7 +7,9 @@ import (
 	"math/big"
 	"sort"
 	"strings"
+	"sync"
 	"testing"
+	"time"
 
 	toml "github.com/pelletier/go-toml"
 	"github.com/zmap/zcrypto/x509"
@@ -220,6 +222,50 @@ func configTargetsObjects() map[string][]gen.Obj {
 	return out
 }
 
+// altDocs: for each configurable lint of today, a configuration that changes
+// its behaviour on some objects.
+var altDocs = map[string]string{
+	"w_subject_contains_html_entities": "[w_subject_contains_html_entities]\nSkip = true\n",
+	"e_subj_orgunit_in_ca_cert":        "[e_subj_orgunit_in_ca_cert]\nCrossCert = true\n",
+	"e_crl_next_update_invalid":        "[e_crl_next_update_invalid]\nSubscriberCRL = false\n",
+	"e_rsa_fermat_factorization":       "[e_rsa_fermat_factorization]\nRounds = 0\n",
+}
+
+var (
+	sensOnce sync.Once
+	sensObjs map[string][]gen.Obj
+)
+
+// sensitiveObjects: home objects of the configurable lints whose verdict
+// actually differs between the default and the alternative configuration
+// (computed from the current tree; plus built CRLs with a long validity).
+func sensitiveObjects() map[string][]gen.Obj {
+	sensOnce.Do(func() {
+		sensObjs = map[string][]gen.Obj{}
+		tg := configTargetsObjects()
+		// built CRLs: nextUpdate 100 days after thisUpdate is an error for subscriber CRLs only
+		this := time.Date(2024, 1, 1, 0, 0, 0, 0, time.UTC)
+		next := this.Add(100 * 24 * time.Hour)
+		num := int64(1)
+		tg["e_crl_next_update_invalid"] = append(tg["e_crl_next_update_invalid"], gen.Obj{Name: "built-crl-100d", Kind: gen.CRL,
+			DER: gen.BuildCRL(gen.CRLSpec{V2: true, ThisUpdate: this, NextUpdate: &next, CRLNumber: &num, AKI: true})})
+		for name, doc := range altDocs {
+			d := doc
+			for _, o := range tg[name] {
+				a, ra := lintWith(o.Kind, o.DER, nil)
+				b, rb := lintWith(o.Kind, o.DER, &d)
+				if ra.RS == nil || rb.RS == nil {
+					continue
+				}
+				if a[name].Status != b[name].Status {
+					sensObjs[name] = append(sensObjs[name], o)
+				}
+			}
+		}
+	})
+	return sensObjs
+}
+
 func TestC11(t *testing.T) {
 	rec := newRec(t, "C11")
 	cis := engine.Configurables()
@@ -382,6 +428,9 @@ func TestC11(t *testing.T) {
 				i := rapid.IntRange(0, len(regs)-1).Draw(rt, "reg")
 				ci := cis[rapid.IntRange(0, len(cis)-1).Draw(rt, "target")]
 				hs := targets[ci.Name]
+				if ss := sensitiveObjects()[ci.Name]; len(ss) > 0 && rapid.IntRange(0, 3).Draw(rt, "sensitive") > 0 {
+					hs = ss
+				}
 				if len(hs) == 0 {
 					rt.Skip("no home object")
 				}
